@@ -4,4 +4,5 @@ pub mod gens;
 pub mod rpc_env;
 pub mod subs_env;
 pub mod client_mock;
+pub mod client_faults;
 pub mod server_env;
